@@ -107,12 +107,27 @@ func (s *scriptReader) ReadPacketData() ([]byte, *gopacket.CaptureInfo, error) {
 	s.calls++
 	sym := s.syms[pos]
 	if sym == 'F' || sym == 'P' {
-		return []byte{byte(pos >> 8), byte(pos), sym}, &gopacket.CaptureInfo{}, nil
+		ci := &gopacket.CaptureInfo{CaptureLength: 3, Length: 3}
+		switch pos % 4 {
+		case 1: // cut by the capture length
+			ci.Length = 1500
+		case 2:
+			ci = &gopacket.CaptureInfo{}
+		case 3:
+			ci.Length = 4
+		}
+		return []byte{byte(pos >> 8), byte(pos), sym}, ci, nil
 	}
 	err := recvErr(sym)
 	s.errPos[err] = pos
 	return nil, nil, err
 }
+
+func (s *scriptReader) WritePacketData([]byte) error { return nil }
+
+type noLimit struct{}
+
+func (noLimit) Take() time.Time { return time.Time{} }
 
 type scriptProc struct {
 	mu        sync.Mutex
@@ -182,10 +197,15 @@ func runRecv(syms, cancelS string) string {
 	errPos := map[error]int{}
 	rd := &scriptReader{syms: syms, cancelAt: cancelAt, cancel: cancel, errPos: errPos}
 	pr := &scriptProc{errPos: errPos}
-	errc := packet.NewReceiver(rd, pr).ReceivePackets(ctx)
+	var src packet.Reader = rd
+	if (len(syms)+cancelAt)%2 == 0 {
+		// what the receiver reads from when --rate is given: reads must pass through unchanged, errors included
+		src = packet.NewRateLimitReadWriter(rd, noLimit{})
+	}
+	errc := packet.NewReceiver(src, pr).ReceivePackets(ctx)
 	var reported []string
 	closed := 0
-	timeout := time.After(20 * time.Second)
+	timeout := time.After(60 * time.Second)
 loop:
 	for {
 		select {
@@ -329,6 +349,12 @@ func recvComponent(r *hx.Run) {
 			class = ""
 		}
 		r.Case(class, "recv", syms, j.cancel, outs[i])
+	}
+	if r.Tier == "thorough" || os.Getenv("VERIF_SEARCH") == "1" {
+		// reading continues after ANY number of unknown failures in a row (2 300 of them: 12 s of 5 ms pauses)
+		syms := strings.Repeat("x", 2300) + "FPF"
+		r.Count("long-failure-run")
+		r.Case("long-failure-run", "recv", syms, "-", runRecv(syms, "-"))
 	}
 	// pause after read errors: isolated unknown errors, each followed by frames, then one more error
 	for _, k := range []int{1, 4, 9, 12} {
